@@ -94,6 +94,7 @@ pub fn run(args: &Args) -> serde_json::Value {
     let mut distinct = std::collections::HashSet::new();
     let mut n_probes = 0;
     let mut n_worm = 0;
+    let mut n_worm_steps = 0;
     let mut n_importance = 0;
     let two64 = 18446744073709551616.0f64;
     for ci in 0..n_cases {
@@ -131,6 +132,28 @@ pub fn run(args: &Args) -> serde_json::Value {
             _ => {
                 oracle_failures.push(json!({"what": "do_time_step panicked or failed", "context": ctx}));
                 coq.push(format!("C19.Step {} {} {} {}%nat {}%nat {} [] [] (Qmake 0 1) true", spec.coq(), cq::b(spec.importance), cq::q(beta), nspin, nedge, cq::bools(&spec.state)));
+            }
+        }
+        // ---- (a') a time step with all three move sets offered (worm included), replayed on the tape
+        {
+            let nworm = 1 + rng.below(3) as usize;
+            let (trng, hlog) = TapeRng::new(rng.next()).shared();
+            let mut g = spec.build(trng, &spec.state);
+            let r = catch_unwind(AssertUnwindSafe(|| g.do_time_step(beta, Some(nspin), Some(nedge), Some(nworm), Some(false))));
+            if let Ok(Ok(())) = r {
+                let s1 = g.clone_state();
+                let e1 = g.get_energy();
+                let words = hlog.lock().unwrap().clone();
+                if let Some(Word::W32(w0)) = words.first() {
+                    // u8 range over 3: the high-multiply of the first word selects the move set
+                    if ((*w0 as u64 * 3) >> 32) == 2 {
+                        n_worm_steps += 1;
+                    }
+                }
+                coq.push(format!("C19.StepFull {} {} {} {}%nat {}%nat {}%nat {} {} {} {}", spec.coq(), cq::b(spec.importance), cq::q(beta), nspin, nedge, nworm,
+                    cq::bools(&spec.state), cq::words(&words), cq::bools(&s1), cq::q(e1)));
+            } else {
+                oracle_failures.push(json!({"what": "do_time_step (all move sets) panicked or failed", "context": ctx}));
             }
         }
         // ---- (b) per-move acceptance thresholds vs the Boltzmann factor of the reported energy (oracle)
@@ -253,7 +276,7 @@ pub fn run(args: &Args) -> serde_json::Value {
     oracle_failures.truncate(60);
     let files = crate::write_shards(&args.out, "C19", "C19", &coq, if args.thorough { 500 } else { 120 });
     json!({"files": files, "evaluations": coq.len(), "distinct_nontrivial": distinct.len() + n_probes, "time_steps": n_cases,
-        "threshold_probes": n_probes, "worm_probes": n_worm, "with_importance_sampling": n_importance,
+        "threshold_probes": n_probes, "worm_probes": n_worm, "replayed_time_steps_that_chose_the_worm": n_worm_steps, "with_importance_sampling": n_importance,
         "oracle_failures": oracle_failures, "samples": samples,
-        "rule": "random graphs (2-5 spins, multi-edges, J of both signs and unequal magnitude, site biases, importance sampling on/off), beta in {1/4, 1/2, 1}; basic-move time steps replayed on the raw tape; for every spin and every edge the acceptance threshold is bisected and compared with the Boltzmann factor of the sampler's own reported energy; worm moves probed by the oracle only"})
+        "rule": "random graphs (2-5 spins, multi-edges, J of both signs and unequal magnitude, site biases, importance sampling on/off), beta in {1/4, 1/2, 1}; basic-move time steps replayed on the raw tape; for every spin and every edge the acceptance threshold is bisected and compared with the Boltzmann factor of the sampler's own reported energy; time steps with all three move sets (worm included) replayed on the raw tape; worm acceptance additionally probed by the oracle"})
 }
